@@ -3,9 +3,9 @@ SPEC = dict(
     technique="bounded-exhaustive enumeration of (document, write-fragment program, output configuration) triples through the real CLI code "
               "path, composed print -> reload, compared with the same run's `-o json` answer (S2 x programs x configurations)",
     rule="documents: every presentation (double/single-quoted, plain, literal, folded; plain/quoted/explicit key; comment) of each leaf of the "
-         "string alphabet (68 strings thorough / 14 quick) + ints, bools, nulls as root, mapping value, sequence item and in flow collections; "
+         "string alphabet (69 strings thorough / 14 quick) + ints, bools, nulls as root, mapping value, sequence item and in flow collections; "
          "two-leaf trees in 8 shapes; special-key mappings; 36 hand-built anchor/alias/merge/comment/block-scalar/multi-document documents. "
-         "Programs: 11 navigation programs on every document, ~70 (26 quick) assignment/update/deletion/merge programs on the canonical "
+         "Programs: 11 (quick 6) navigation programs on every document, 67 (quick 23) assignment/update/deletion/merge programs on the canonical "
          "presentation of every tree and the hand-built documents. Configurations: -I 0..7 x {default,-S} + --tab x {default,-S}. "
          "A case is (document, program, configuration); distinct+non-trivial = distinct case together with its verdict class",
     level_text="For every enumerated case the YAML the real CLI prints is fed back to the real loader and must give the JSON values that the "
